@@ -637,56 +637,61 @@ func r047(c *Ctx, r *R) {
 			r.Check(okSweep, "unpinClusterDag:sweep", lu.Pos(), "the loop over the listed CIDs is left early only with the error of a failed unpin", "unpinClusterDag can stop before every listed CID was unpinned without reporting an error")
 		}
 	}
-	// (3) cidsFromMetaPin: the list holds the reference and every link
-	fd, pkg := c.decl(r, "", "Cluster.cidsFromMetaPin")
-	if fd == nil {
+	// (3) cidsFromMetaPin: the successful result for a meta pin is built
+	// from the meta pin's reference (the cluster-DAG entry) and from the
+	// CIDs of the cluster DAG's links (the shard entries), however the list
+	// is put together
+	cf := c.fn(r, "", "Cluster.cidsFromMetaPin")
+	if cf == nil {
 		return
 	}
-	mentionsSel := func(n ast.Node, name string) bool {
-		found := false
-		ast.Inspect(n, func(x ast.Node) bool {
-			if se, ok := x.(*ast.SelectorExpr); ok && se.Sel.Name == name {
-				found = true
+	n := 0
+	for _, ret := range returnsOf(cf) {
+		if ret.Block() == cf.Recover || len(ret.Results) != 2 || !isNilConst(retResult(ret, 1)) {
+			continue
+		}
+		// the return after the cluster DAG was read and parsed
+		if !guardedBy(ret.Block(), func(g Guard) bool { return gCallErrNil(g, "sharding.CborDataToNode") }) {
+			continue
+		}
+		n++
+		list := retResult(ret, 0)
+		hasRef := builtFrom(list, func(v ssa.Value) bool {
+			// *pin.Reference
+			if u, ok := v.(*ssa.UnOp); ok && u.Op == token.MUL {
+				if fl, _ := fieldLoad(u.X); fl != nil && fl.Name() == "Reference" {
+					return true
+				}
 			}
-			return true
+			return false
 		})
-		return found
-	}
-	isAppend := func(n ast.Node) bool {
-		found := false
-		ast.Inspect(n, func(x ast.Node) bool {
-			if call, ok := x.(*ast.CallExpr); ok {
-				if id, ok := call.Fun.(*ast.Ident); ok && id.Name == "append" {
-					if _, isB := pkg.TypesInfo.Uses[id].(*types.Builtin); isB {
-						found = true
+		hasLinks := builtFrom(list, func(v ssa.Value) bool {
+			// <element of Links()>.Cid
+			fl, base := fieldLoad(v)
+			if fl == nil || fl.Name() != "Cid" {
+				return false
+			}
+			// base: *IndexAddr(links, i) or IndexAddr elem pointer
+			for k := 0; k < 4 && base != nil; k++ {
+				switch y := base.(type) {
+				case *ssa.UnOp:
+					base = y.X
+					continue
+				case *ssa.IndexAddr:
+					if call, _ := originCall(y.X); call != nil && strings.HasSuffix(callName(call.Common()), ".Links") {
+						return true
 					}
 				}
+				break
 			}
-			return true
+			return false
 		})
-		return found
+		r.Check(hasRef, "cidsFromMetaPin:reference", ret.Pos(), "the successful list contains the meta pin's reference (the cluster-DAG entry)", "cidsFromMetaPin's successful result no longer contains the meta pin's reference (the cluster-DAG entry is never unpinned)")
+		r.Check(hasLinks, "cidsFromMetaPin:links", ret.Pos(), "the successful list contains the CID of every link of the cluster DAG (the shard entries)", "cidsFromMetaPin's successful result no longer contains the cluster DAG's links (shard entries are never unpinned)")
 	}
-	refAt, linksAt, retAt := -1, -1, -1
-	for i, st := range fd.Body.List {
-		switch x := st.(type) {
-		case *ast.AssignStmt:
-			if isAppend(x) && mentionsSel(x, "Reference") {
-				refAt = i
-			}
-		case *ast.RangeStmt:
-			if call, ok := ast.Unparen(x.X).(*ast.CallExpr); ok && strings.HasSuffix(funcFullName(pkg, call), ".Links") && isAppend(x.Body) && mentionsSel(x.Body, "Cid") {
-				linksAt = i
-			}
-		case *ast.ReturnStmt:
-			if len(x.Results) == 2 {
-				if id, ok := x.Results[1].(*ast.Ident); ok && id.Name == "nil" {
-					retAt = i
-				}
-			}
-		}
+	if n == 0 {
+		r.Und("cidsFromMetaPin:return", cf.Pos(), "no successful return after the cluster DAG was parsed found in cidsFromMetaPin")
 	}
-	r.Check(refAt >= 0 && retAt > refAt, "cidsFromMetaPin:reference", fd.Pos(), "the cluster-DAG CID (the meta pin's reference) is added to the list before the successful return", "cidsFromMetaPin's successful result no longer contains the meta pin's reference (the cluster-DAG entry is never unpinned)")
-	r.Check(linksAt >= 0 && retAt > linksAt, "cidsFromMetaPin:links", fd.Pos(), "every link of the cluster DAG (the shard entries) is added to the list before the successful return", "cidsFromMetaPin's successful result no longer contains the cluster DAG's links (shard entries are never unpinned)")
 }
 
 func init() {
